@@ -239,8 +239,59 @@ func RunC06(c *engine.Ctx) {
 	c.Cov["rejected"] = rejected
 	c.Cov["reference_accepts"] = refAccepts
 	siblingEtypes(c)
+	keyBufferHistories(c)
 	concurrentSchedules(c, "C06")
-	c.Cov["rule"] = "for etype(6) x plaintext length 0..64: every single-bit flip, every truncation, appended/prepended bytes, every swap of two aligned blocks, every other usage of the usage set and a dense sweep 1..1200 (rc4: modulo RFC 4757 aliases), the full made-under x presented-under matrix for usages 0..32 and 127/128/255/256, flips and truncations under usage 0, each through the etype method and (for a third of the cases and all substitutions) crypto.DecryptMessage and crypto.DecryptEncPart, 3 unrelated keys, same key under each other etype of equal key length; distinct = (etype, mutation class) pairs that were exercised and rejected"
+	c.Cov["rule"] = "key-buffer histories (one key buffer overwritten in place between calls: a ciphertext of the key that was in the buffer before must not decrypt, the current key's must), every order of 2 keys over 6 steps x 4 usages x encrypt-first / decrypt-first; for etype(6) x plaintext length 0..64: every single-bit flip, every truncation, appended/prepended bytes, every swap of two aligned blocks, every other usage of the usage set and a dense sweep 1..1200 (rc4: modulo RFC 4757 aliases), the full made-under x presented-under matrix for usages 0..32 and 127/128/255/256, flips and truncations under usage 0, each through the etype method and (for a third of the cases and all substitutions) crypto.DecryptMessage and crypto.DecryptEncPart, 3 unrelated keys, same key under each other etype of equal key length; distinct = (etype, mutation class) pairs that were exercised and rejected"
+}
+
+// keyBufferHistories: the caller keeps its key in one buffer and overwrites it in place with another key between
+// calls. Whatever the library remembers from earlier calls, a ciphertext made under the key that used to be in the
+// buffer yields an error and no plaintext, and the current key's ciphertext decrypts.
+func keyBufferHistories(c *engine.Ctx) {
+	r := rand.New(rand.NewSource(c.Seed + 6))
+	for _, et := range rcrypto.Etypes {
+		p, _ := rcrypto.Get(et)
+		g := goET(et)
+		ks := keys(et, 3, c.Seed+19)
+		kb := make([]byte, len(ks[0]))
+		for _, u := range []uint32{3, 11, 24, 1025} {
+			for _, first := range []string{"decrypt", "encrypt"} {
+				pt := randBytes(r, 33)
+				for step, which := range []int{0, 1, 0, 2, 2, 1} {
+					copy(kb, ks[which])
+					cs := c06case{Etype: et, Len: len(pt), Usage: u, Key: hex.EncodeToString(ks[which]), Mutation: fmt.Sprintf("key-buffer history step %d (%s first; buffer overwritten in place)", step, first)}
+					c.Add("evaluations", 2)
+					if first == "encrypt" {
+						if _, _, err := g.EncryptMessage(kb, append([]byte{}, pt...), u); err != nil {
+							c.Violate("keybuf", fmt.Sprintf("keybuf:et%d:encrypt-error", et), map[string]interface{}{"err": err.Error()}, cs)
+							break
+						}
+					}
+					mine, _ := rcrypto.EncryptWithConfounder(et, ks[which], u, randBytes(r, p.Conf), pt)
+					if got, err := g.DecryptMessage(kb, mine, u); err != nil || !expectPlain(et, pt, got) {
+						c.Violate("keybuf", fmt.Sprintf("genuine-rejected:key-buffer-reused:et%d", et), map[string]interface{}{"err": fmt.Sprint(err)}, cs)
+						break
+					}
+					bad := false
+					for o := range ks {
+						if o == which {
+							continue
+						}
+						theirs, _ := rcrypto.EncryptWithConfounder(et, ks[o], u, randBytes(r, p.Conf), pt)
+						if out, err := g.DecryptMessage(kb, theirs, u); err == nil || len(out) != 0 {
+							c.Violate("keybuf", fmt.Sprintf("accepted:et%d:ciphertext-of-a-key-previously-in-the-buffer", et), map[string]interface{}{"plaintext_returned": len(out), "err": fmt.Sprint(err)}, cs)
+							bad = true
+							break
+						}
+					}
+					if bad {
+						break
+					}
+					c.Distinct(fmt.Sprintf("keybuf/%d/%d/%s/%d", et, u, first, step))
+				}
+			}
+		}
+	}
 }
 
 func bytesEqual(a, b []byte) bool {
